@@ -6,7 +6,7 @@
             otherwise (0 / -0), and for all values without a negative zero in either case. *)
 From Coq Require Import List ZArith NArith Bool Lia Permutation.
 From Coq Require Import Strings.Byte Floats.SpecFloat.
-From YV Require Import Num NumProofs ValueEq HashMapModel.
+From YV Require Import Num NumProofs ValueEq HashMapModel RangeCache RangeCacheModel.
 Import ListNotations.
 
 (* ===================================================================== *)
@@ -803,3 +803,29 @@ Print Assumptions nan_keys.
 Print Assumptions refines_when_coherent.
 Print Assumptions refines_except_neg_zero.
 Print Assumptions refinement_refuted_neg_zero.
+
+(* ---- ranges: identity depends on the cache (RangeCache.v), the hash does not ---- *)
+Lemma range_veq_same_bounds : forall i j b e, veq (KRange i b e) (KRange j b e) = N.eqb i j.
+Proof. intros. cbn. rewrite !Z.eqb_refl, !andb_true_r. reflexivity. Qed.
+
+Lemma range_hash_bounds_only : forall norm hc i j b e, vhash norm hc (KRange i b e) = vhash norm hc (KRange j b e).
+Proof. reflexivity. Qed.
+
+(* `a..b`, then n distinct other ranges, then `a..b` again, from an empty cache of 8 entries: the two values
+   are == (one box) for n = 7 and not == (the box was evicted and re-created) for n = 8; a..b evaluated with
+   fewer ranges in between is always the same box *)
+Theorem range_identity_within_8 : forall n, (n <= 7)%nat ->
+  exists x y, twice_with_gap 8 0 3 n = Some (x, y) /\ veq x y = true.
+Proof.
+  intros n Hn. do 8 (destruct n as [|n]; [eexists; eexists; split; vm_compute; reflexivity|]). lia.
+Qed.
+
+Theorem range_identity_beyond_8 :
+  exists x y, twice_with_gap 8 0 3 8 = Some (x, y) /\ veq x y = false /\
+              forall norm hc, vhash norm hc x = vhash norm hc y.
+Proof.
+  eexists; eexists. split; [vm_compute; reflexivity|]. split; [reflexivity|]. intros; reflexivity.
+Qed.
+
+Print Assumptions range_identity_within_8.
+Print Assumptions range_identity_beyond_8.
